@@ -206,11 +206,20 @@ structure Opts where
   strict : Bool := false
   deriving DecidableEq, Repr
 
+/-- the four wrappers `FunctionParser.wrap` chooses from (func.py:521-566): `sync_call`, `get_async_call`
+(:927-957), `get_sync_generator` (:791-830), `get_async_generator` (:883-925) -/
+inductive FKind where
+  | sync | async | gen | agen
+  deriving DecidableEq, Repr
+
 structure Decl where
   kind : DKind
   dfs : Bool := false                       -- Options(data_first_search=True)
   fields : List Field
   wrappers : List (Option Opts) := []        -- func: `utype.parse(raw, options=..)` applied in this order
+  fkind : FKind := .sync                     -- func: plain / `async def` / generator / async generator
+  eager : Bool := false                      -- func: `utype.parse(eager=True)`
+  ret : Option (String × Ty) := none         -- func (sync/async): `-> T`, the body returns the parameter of that name
   deriving Repr
 
 abbrev Env := List Decl
@@ -513,9 +522,22 @@ def callWith (optsOf : List (Option Opts) → Nat → Opts) (E : Env) (target : 
       let o := optsOf d.wrappers wrapper
       -- positional arguments are looked up by position, the rest by name; both go through `parse_value`,
       -- missing ones through `get_default`; the order differs, the objects do not
+      -- All four wrappers create their RuntimeContext *inside* the call (func.py:562, 801, 893, 937), resolve the
+      -- parameters through the same `get_params`/`parse_params`, and differ only in when that happens (at the call
+      -- when `eager`, else at the first `await` / `next`): `fkind` and `eager` do not enter the outcome.
       match parseData (conv E o fuelDefault) { d with dfs := false } keys items s with
       | (.error e, s1) => (.error e, s1)
-      | (.ok vals, s1) => mkBinding vals s1
+      | (.ok vals, s1) =>
+        match d.ret with
+        | Option.none => mkBinding vals s1
+        | some (fname, ty) =>
+          -- `parse_result` (func.py:703-712): the returned value goes through the transformer with the same context
+          match lookupKV fname (vals.map (·.1)) (vals.map (·.2)) with
+          | Option.none => mkBinding vals s1
+          | some v =>
+            match conv E o fuelDefault ty v s1 with
+            | (.error e, s2) => (.error e, s2)
+            | (.ok _, s2) => mkBinding vals s2
     else initWith (conv E {} fuelDefault) E target keys items s
 
 def call := callWith effectiveOpts
@@ -653,8 +675,16 @@ def Outcome.ofErr : Err → Outcome
   | .unmodelled w => .unmodelled w
   | .fuel => .unmodelled "fuel"
 
+/-- `kwargs.update(_d)` (cls.py:489-490): the keyword arguments, overridden by the positional dict's entries -/
+def mergeKV : List String → List Val → List String × List Val → List String × List Val
+  | k :: ks, x :: xs, acc => mergeKV ks xs (setKV k x acc.1 acc.2)
+  | _, _, acc => acc
+
+/-- the entries the parser sees: of the caller's dict, or — for `Cls(d, **kw)`, input `(d, kw)` — of the
+call's own `kwargs` after `kwargs.update(d)` -/
 def entriesOf : Val → List String × List Val
   | .node _ .dict ks xs => (ks, xs)
+  | .node _ .tuple _ [.node _ .dict ks xs, .node _ .dict kks kxs] => mergeKV ks xs (kks, kxs)
   | _ => ([], [])
 
 def World.root (w : World) (r : Nat) : Option Val := (w.roots[r]?).bind id
